@@ -1,7 +1,7 @@
 /-
   C09 — Duplicate keys are never merged or dropped: first wins, the rest are flagged.
 
-  `libraryOf bs` models the sequence of `library.add(block)` calls the splitter makes (and
+  `libraryOfE bs` models the sequence of `library.add(block)` calls the splitter makes (and
   `Library(blocks)`, by which every block middleware rebuilds the library).  `addAllSpec` is the
   specification: block `i` is itself, or — if an earlier live entry/@string has its key — a
   duplicate-key block exposing the key, that FIRST block, and the complete duplicate.
@@ -16,7 +16,7 @@ variable (P : PyChars)
 
 /-- Adding never raises (the two asserts of `_cast_to_duplicate` are unreachable) and yields
 exactly the specified blocks. -/
-theorem library_add (bs : List Block) : ∃ L, libraryOf bs = .ok L ∧ L.blocks = addAllSpec [] bs := by
+theorem library_add (bs : List Block) : ∃ L, libraryOfE bs = .ok L ∧ L.blocks = addAllSpec [] bs := by
   obtain ⟨L, h, inv⟩ := addMany_inv bs {} [] libInv_empty
   exact ⟨L, h, by simpa using inv.blocks⟩
 
@@ -146,7 +146,7 @@ theorem dupKeys_nonempty_iff (fs : List Field) : dupKeys fs ≠ [] ↔ ¬ (fs.ma
 example :
     let e (n : Int) : Block := .live (.entry { ty := "a".toList, key := "k".toList, fields := [], line := n, raw := [] })
     let s : Block := .live (.string "k".toList (.str []) 9 [] [])
-    (libraryOf [e 1, s, e 2, .dupField ["f".toList] { ty := [], key := "k".toList, fields := [], line := 3, raw := [] }, e 4, s]).toOption.map
+    (libraryOfE [e 1, s, e 2, .dupField ["f".toList] { ty := [], key := "k".toList, fields := [], line := 3, raw := [] }, e 4, s]).toOption.map
         (fun L => L.blocks.map fun b => match b with
           | .dupKey _ p d => (1, p.line, d.line) | b => (0, b.line, b.line))
       = some [(0, 1, 1), (0, 9, 9), (1, 1, 2), (0, 3, 3), (1, 1, 4), (1, 9, 9)] := by
